@@ -1226,6 +1226,15 @@ class Translator:
         if k == 'ImplicitValueInitExpr' or k == 'CXXScalarValueInitExpr':
             if ty[0] == 'scalar':
                 return ('false' if ty[1] == 'TBool' else '(ilit I %s 0)' % ty[1]), ty
+        if k == 'UnaryExprOrTypeTraitExpr' and e.get('name') == 'sizeof' and ty[0] == 'scalar':
+            # (C14, additive) sizeof of a scalar type (LP64): a constant of type size_t; anything else stays unsupported
+            at = e.get('argType') or (inner[0].get('type') if inner else None)
+            ati = self.typeinfo(at) if at else ('other',)
+            nbytes = {'TBool': 1, 'I8': 1, 'U8': 1, 'I16': 2, 'U16': 2, 'I32': 4, 'U32': 4, 'I64': 8, 'U64': 8,
+                      'F32': 4, 'F64': 8}
+            if ati[0] == 'scalar' and ati[1] in nbytes:
+                return '(ilit I %s %d)' % (ty[1], nbytes[ati[1]]), ty
+            raise Unsupported('sizeof of a non-scalar type')
         raise Unsupported('expression of kind %s' % k)
 
     def field_by_name(self, base, name):
